@@ -25,6 +25,7 @@ RULE = (
     ' Two or three concurrent top-level calls on one AsyncRunner, each with its own processor (natural lock-step schedule and controlled schedules): every processor gets the whole tree of its own call and nothing else.'
     ' Calls with an option value the library refuses (on_missing outside its three values), raise and continue mode: nothing delivered, no body run. Node bodies that re-seed the global PRNG, executed several times in one call (loop, map items).'
     ' Also: map() with max_concurrency 0 / -1 (a rejected call or a whole span tree, never a mixture); two further processors that compare equal to each other, each owed the whole stream and one shutdown; a nested graph pausing in the step of a failing sibling.'
+    ' Directed: an unbounded async map over more items than the library accepts is refused without any delivery; a recorder that itself raises once keeps a complete stream and its single shutdown.'
 )
 ASSUMPTIONS = ["PAUSED calls are outside the statement and are counted, not judged"]
 DECIDING = ["streams_checked", "events_checked"]
@@ -459,6 +460,65 @@ def concurrent_calls(ctx, i):
     ctx.case({"concurrent": k, "f": fam["family"], "s": gen.shape_of(spec), "ctl": controlled}, True)
 
 
+def oversize_and_flaky_recorder(ctx):
+    """(1) An unbounded AsyncRunner.map() over more items than the library accepts without a limit is REFUSED (ValueError):
+    like every rejected call it delivers nothing and shuts nothing down. (2) A recording processor that ALSO raises once
+    (after recording, at some event index) is still a registered processor: its own stream stays a complete, well-nested
+    tree and it is shut down exactly once - flat, nested and mapped programs, both runners."""
+    import asyncio
+
+    from hypergraph import AsyncRunner, FunctionNode, Graph
+    from hypergraph.events import AsyncEventProcessor, EventProcessor
+
+    Rec, ARec = rt.make_processors()
+    g = Graph([FunctionNode(lambda x: x, name="idn", output_name="y")], name="big")
+    rec = rt.new_rec()
+    try:
+        asyncio.run(AsyncRunner().map(g, {"x": list(range(10001))}, map_over="x", event_processors=[Rec("p")]))
+        refused = None
+    except ValueError as e:
+        refused = e
+    except Exception as e:  # noqa: BLE001
+        refused = e
+    ctx.obs["oversize_map_calls"] += 1
+    evs = rt.events_of(rec, "p")
+    if refused is not None and (evs or any(e[0] == "shutdown" for e in rec.ev)):
+        ctx.violation("C12:rejected-call-emitted", f"an unbounded map over 10001 items was refused ({type(refused).__name__}), yet {len(evs)} events were delivered: {[type(e).__name__ for e in evs[:3]]}", {"program": "oversize unbounded AsyncRunner.map"})
+    ctx.obs["rejected_calls"] += int(refused is not None)
+
+    class FlakyRec(EventProcessor):
+        def __init__(self, tag, k):
+            self.tag, self.k, self.n = tag, k, 0
+
+        def on_event(self, event):
+            rt.CUR.add("ev", self.tag, event)
+            self.n += 1
+            if self.n - 1 == self.k:
+                raise RuntimeError("sink hiccup")
+
+        def shutdown(self):
+            rt.CUR.add("shutdown", self.tag)
+
+    class AFlakyRec(AsyncEventProcessor, FlakyRec):
+        async def on_event_async(self, event):
+            FlakyRec.on_event(self, event)
+
+        async def shutdown_async(self):
+            FlakyRec.shutdown(self)
+
+    for fam in (families.nested(ctx.rng, depth=1), families.mapped(ctx.rng, err="continue"), families.dag(ctx.rng)):
+        spec, inputs = fam["spec"], fam["inputs"]
+        for runner in ("sync", "async"):
+            base = core.execute(core.with_async(spec, runner == "async", ctx.rng), inputs, runner, processors=[Rec("p")])
+            N = len(rt.events_of(base.rec, "p"))
+            for k in sorted({0, 1, N // 2, max(N - 2, 0), max(N - 1, 0)}):
+                P = (AFlakyRec if runner == "async" and k % 2 else FlakyRec)("p", k)
+                o = core.execute(core.with_async(spec, runner == "async", ctx.rng), inputs, runner, processors=[P])
+                ctx.obs["flaky_recorder_runs"] += 1
+                check_stream(ctx, o, spec, "p", f"{runner}/recorder-that-raised-once-at-{k}", {"family": fam["family"], "spec": spec, "inputs": inputs, "flaky_at": k})
+    ctx.case({"directed": "oversize-map-and-flaky-recorder"}, True)
+
+
 def run(ctx):
     n = 90 if ctx.tier == "quick" else 2000
     if ctx.replay:
@@ -499,6 +559,7 @@ def run(ctx):
                 efam["inputs"][k_] = []
             variants(ctx, efam)
         ctx.case({"directed": "empty-mapping-node"}, True)
+        oversize_and_flaky_recorder(ctx)
     for i in range(n):
         if i % 6 == 5:
             map_call(ctx, i)
